@@ -205,6 +205,24 @@ contains
 end module m
 """
 
+M_VECLOOP = """
+module m
+  implicit none
+contains
+  subroutine k(n, m2, a, b)
+    integer, intent(in) :: n, m2
+    real, intent(inout) :: a(n), b(n)
+    integer :: i
+    do i = 1, n, 2
+      b(i) = 1.0
+    end do
+    do i = m2, 1, -1
+      a(1:n:2) = b(1:n:2) + real(i)
+    end do
+  end subroutine k
+end module m
+"""
+
 
 def _T():
     import loki.transformations as T   # pylint: disable=import-outside-toplevel
@@ -252,6 +270,7 @@ WITNESSES = [
     ('inline_constant_parameters', M_CONST, lambda sf: _T().inline_constant_parameters(sf['k'], external_only=True)),
     ('print_stmt(clone)', M_PRINT, _clone_print),
     ('print_stmt(rename)', M_PRINT, lambda sf: _T().rename_variables(sf['k'], symbol_map={'s2': 's2_r'})),
+    ('resolve_vector_notation(enclosing loop variable)', M_VECLOOP, lambda sf: _T().resolve_vector_notation(sf['k'])),
     ('inline_internal_procedures(case)', M_INTERNAL_CASE, lambda sf: _T().inline_internal_procedures(sf['k'])),
 ]
 
